@@ -17,7 +17,7 @@ import (
 	"github.com/trustbloc/sidetree-core-go/pkg/docutil"
 )
 
-const jsonPatchAddTemplate = `{ "op": "add", "path": "/%s", "value": %s }`
+const jsonPatchAddTemplate = `{ "op": "add", "path": %s, "value": %s }`
 
 // Action defines action of document patch.
 type Action string
@@ -119,7 +119,14 @@ func PatchesFromDocument(doc string) ([]Patch, error) {
 		case document.AlsoKnownAs:
 			docPatch, err = NewAddAlsoKnownAs(string(jsonBytes))
 		default:
-			jsonPatches = append(jsonPatches, fmt.Sprintf(jsonPatchAddTemplate, key, string(jsonBytes)))
+			// the member name becomes part of a JSON string: encode it as one, so that a name containing a quote,
+			// a backslash or a control character cannot change the structure of the generated patch
+			var path []byte
+
+			path, err = json.Marshal("/" + key)
+			if err == nil {
+				jsonPatches = append(jsonPatches, fmt.Sprintf(jsonPatchAddTemplate, string(path), string(jsonBytes)))
+			}
 		}
 
 		if err != nil {
